@@ -2,6 +2,7 @@ import OdcGeo.Model.C08
 import OdcGeo.Model.C08Args
 import OdcGeo.Model.C02
 import OdcGeo.Model.C20NonFinite
+import OdcGeo.Model.C08NonFinite
 import OdcGeo.Drv.C20
 namespace OdcGeo.C08.Drv
 open OdcGeo OdcGeo.IO OdcGeo.C08
@@ -143,6 +144,25 @@ def run (args : List String) : Option String :=
     let snap ← parseOpt? parsePt? snap; let tol ← C20.Drv.parseXF? tol
     pure (match C20.NF.fromBboxResX l b r t rx ry snap tol with
       | .ok (ny, nx, ox, oy) => s!"{ny} {nx} {C20.Drv.fmtXF ox} {C20.Drv.fmtXF oy}"
+      | .error e => e.toStr)
+  | ["bboxshapex", l, b, r, t, ny, nx, snap, tol] => do
+    -- shape-driven branch, arbitrary floats; `snap` = `N` or `<sx>;<sy>` (anchor fractions, may be non-finite)
+    let l ← C20.Drv.parseXF? l; let b ← C20.Drv.parseXF? b; let r ← C20.Drv.parseXF? r; let t ← C20.Drv.parseXF? t
+    let ny ← parseInt? ny; let nx ← parseInt? nx; let tol ← C20.Drv.parseXF? tol
+    let snap ← parseOpt? (fun s => match (s.splitOn ";").mapM C20.Drv.parseXF? with
+      | some [sx, sy] => some (sx, sy)
+      | _ => none) snap
+    pure (match NF.fromBboxShapeX l b r t ny nx snap tol with
+      | .ok g => s!"{g.ny} {g.nx} {C20.Drv.fmtXF g.a} {C20.Drv.fmtXF g.e} {C20.Drv.fmtXF g.c} {C20.Drv.fmtXF g.f}"
+      | .error e => e.toStr)
+  | ["bboxnumx", l, b, r, t, q, snap, tol] => do
+    let l ← C20.Drv.parseXF? l; let b ← C20.Drv.parseXF? b; let r ← C20.Drv.parseXF? r; let t ← C20.Drv.parseXF? t
+    let q ← C20.Drv.parseXF? q; let tol ← C20.Drv.parseXF? tol
+    let snap ← parseOpt? (fun s => match (s.splitOn ";").mapM C20.Drv.parseXF? with
+      | some [sx, sy] => some (sx, sy)
+      | _ => none) snap
+    pure (match NF.fromBboxNumShapeX l b r t q snap tol with
+      | .ok g => s!"{g.ny} {g.nx} {C20.Drv.fmtXF g.a} {C20.Drv.fmtXF g.e} {C20.Drv.fmtXF g.c} {C20.Drv.fmtXF g.f}"
       | .error e => e.toStr)
   | ["bboxutm", l, b, r, t, A, tight, shape, res, anchor, tol] => do
     -- the utm shortcut with an affine stand-in `A` for the projection
